@@ -1,7 +1,7 @@
 /-
   `main` / `exec_search` (main.rs) on a file-system snapshot: argv → outcome.
 -/
-import Fsel.Model.Walk
+import Fsel.Model.Follow
 
 namespace Fsel
 
@@ -16,37 +16,6 @@ inductive Outcome where
   | unsupported (why : String)
   deriving Repr
 
-def pathComps (p : Str) : List Str := (splitChar '/' p).filter (!·.isEmpty)
-
-/-- lexical normalisation of `.` and `..` (valid when no component is a symlink) -/
-def normComps : List Str → List Str → List Str
-  | acc, [] => acc
-  | acc, c :: cs =>
-    if c == ['.'] then normComps acc cs
-    else if c == ['.', '.'] then normComps acc.dropLast cs
-    else normComps (acc ++ [c]) cs
-
-def findKid (name : Str) : List Node → Option Node
-  | [] => none
-  | n :: ns => if n.entry.name == name then some n else findKid name ns
-
-/-- descend from a node along components; `some none` = does not exist; `none` = a symlink on the way
-    (outside the fragment handled here) -/
-def descend : List Str → Node → Option (Option Node)
-  | [], n => some (some n)
-  | c :: cs, .dir _ _ kids =>
-    match findKid c kids with
-    | none => some none
-    | some k => if k.entry.kind == 'l' then none else descend cs k
-  | _ :: _, .leaf _ _ => some none
-
-def isPrefixComps : List Str → List Str → Option (List Str)
-  | [], r => some r
-  | _ :: _, [] => none
-  | a :: as, b :: bs => if a == b then isPrefixComps as bs else none
-
-def joinComps (cs : List Str) : Str := if cs.isEmpty then ['/'] else cs.flatMap (fun c => '/' :: c)
-
 /-- resolve a root path of the query against the snapshot -/
 def resolveRoot (fs : FSnap) (path : Str) : Except String RootRes :=
   let abs := if startsWith path ['/'] then pathComps path else pathComps fs.cwd ++ pathComps path
@@ -60,18 +29,33 @@ def resolveRoot (fs : FSnap) (path : Str) : Except String RootRes :=
     | some (some (.dir e l kids)) => .ok (.dir e l kids (joinComps norm))
     | some (some (.leaf e _)) => .ok (.notDir e (joinComps norm))
 
+/-- with `symlinks` the metadata of an entry is read through the link; the model covers the columns that do
+    not depend on it -/
+def followColumnsOK (q : Query) : Bool :=
+  let ok (f : Field) : Bool := f == .Name || f == .Path || f == .Extension || f == .Directory || f == .AbsPath || f == .AbsDir
+  (q.fields ++ q.grouping ++ q.ordering ++ (match q.expr with | some e => [e] | none => [])).all
+    fun e => e.requiredFields.all ok
+
 def searchRoots (p : Plan) (fs : FSnap) : List Root → WSt → Except Abort WSt
   | [], st => .ok st
   | r :: rs, st =>
     if r.options.regexp then .error (.unsupported "regexp root")
-    else if r.options.symlinks then .error (.unsupported "symlinks root option (see Follow.lean)")
     else if r.options.gitignore.getD (p.cfg.gitignore.getD false) || r.options.hgignore.getD (p.cfg.hgignore.getD false)
             || r.options.dockerignore.getD (p.cfg.dockerignore.getD false) then .error (.unsupported "ignore files (see Ignore.lean)")
     else
       match resolveRoot fs r.path with
       | .error w => .error (.unsupported w)
       | .ok res =>
-        match searchRoot p r res st with
+        let run : Except Abort WSt :=
+          if r.options.symlinks then
+            if !followColumnsOK p.q then .error (.unsupported "symlinks: columns read through the link (metadata follows links)")
+            else
+              let st1 : WSt := match res with
+                | .dir e _ _ _ => { st with walk := { st.walk with fresh := st.walk.fresh.erase e.ino } }
+                | _ => st
+              searchRootFollow ⟨fs.top, fs.rootCanon⟩ p r res st1
+          else searchRoot p r res st
+        match run with
         | .error a => .error a
         | .ok st' => searchRoots p fs rs st'
 
@@ -82,7 +66,7 @@ def execSearch (fs : FSnap) (cfg : Config) (args : List Str) : Outcome :=
   | .error (.unsupported w) => .unsupported w
   | .ok q =>
     let p := Plan.of q cfg
-    let st0 : WSt := { res := { outRev := [fmtHeader q.format] } }
+    let st0 : WSt := { res := { outRev := [fmtHeader q.format] }, walk := { fresh := fs.top.inodes.eraseDups } }
     match searchRoots p fs q.roots st0 with
     | .error (.exit2 _ out) => .exit 2 out [] false []
     | .error (.unsupported w) => .unsupported w
